@@ -1048,6 +1048,10 @@ def rand_c15(seed, tier, cases=None):
         for mask in (-1, -2):
             out.append(dict(fam="C15", kind=kind, a=dict(src="feed", feed=dict(pkind=pk, shape=shape, len=100000, salt=1, mtu=1200)), mask=mask, garbage=[], after=[],
                             b=dict(src="feed", feed=dict(pkind=pk, shape=shape, len=3000, salt=2, mtu=1200)), wellformed_b=True, **{"class": kind + "_giant_abandoned_unit"}))
+    # an abandoned unit of 4.3 MB (more than 4 MiB buffered before the next frame begins)
+    for kind, pk, shape in (("h264", "h264", "h264_slice"), ("av1", "av1", "obu_frame_only")):
+        out.append(dict(fam="C15", kind=kind, a=dict(src="feed", feed=dict(pkind=pk, shape=shape, len=4300000, salt=1, mtu=1200)), mask=-1, garbage=[], after=[],
+                        b=dict(src="feed", feed=dict(pkind=pk, shape=shape, len=3000, salt=2, mtu=1200)), wellformed_b=True, **{"class": kind + "_huge_abandoned_unit"}))
     return out
 
 
